@@ -147,10 +147,11 @@ BASIC_SRC = 'THE MODEL OF THE THREE BASIC CLASSES IS THE SOURCE: GenBasic.prog_o
 TWO_SRC = 'THE MODEL OF TwoLevelCheckpointSchedule IS THE SOURCE: GenTwo.two_prog_model is the program (generator language GenLang2: named locals, the snapshots stack, //, *, min, n_advance, assert, del) that harness/translate.py produces from TwoLevelCheckpointSchedule._iterator; Gen/TwoLevelGen.v re-translates the current source on every run and proves it equal to that term by conversion.  Resuming that program request by request from the freshly constructed object gives, for every period, unit count, storage and trajectory the constructor accepts and under EVERY history of next() and finalize(k) calls, exactly the observations (outcome, n, r, max_n, is_exhausted) of the hand-written machine Online.run_ops (class KTwo) -- so the TwoLevel theorems of this file, stated on the extracted model, are theorems about the translated source (n_advance itself is tied by Gen/NAdvanceGen.v)'
 MULTI_SRC = 'THE MODEL OF MultistageCheckpointSchedule IS THE SOURCE: GenMulti.multi_prog_model is the program (generator language GenLang3) that harness/translate.py produces from MultistageCheckpointSchedule._iterator, the nested helper write(n) inlined at its two call sites; Gen/MultistageGen.v re-translates the current source on every run and proves it equal to that term by conversion.  For every parameter tuple the constructor accepts, resuming that program request by request gives under EVERY history of next() and finalize(k) calls exactly the observations (outcome, n, r, max_n, is_exhausted) of the schedule object of Model/Sched.v (srun_ops: Sched.next / Sched.finalize on the Multistage machine) -- so the Multistage theorems of this file, stated on the extracted model, are theorems about the translated source.  (The unit total self._snapshots_in_ram + self._snapshots_on_disk is read as the length of the label tuple self._storage, which is what __init__ recounts them from; the allocation of the labels, allocate_snapshots, is tied by the correspondence.)'
 CONV_SRC = 'THE CONVERTER OF THE FOUR REVOLVE-FAMILY CLASSES IS THE SOURCE: GenConv.conv_prog_model is the program (generator language GenLang4: the operation list with Python indexing, _convert_action, integer / boolean / storage / type-name locals, the set snapshots) that harness/translate.py produces from RevolveCheckpointSchedule._iterator; Gen/ConverterGen.v re-translates the current source on every run and proves it equal to that term by conversion (and Gen/ConvertGen.v does the same for _convert_action).  For Revolve, DiskRevolve, PeriodicDiskRevolve and HRevolve alike, every accepted parameter tuple and every history of next() and finalize(k) calls: as long as the hand-written machine (RevConv.next on the operation list of the class) does not raise, resuming the translated program gives exactly its observations (outcome, n, r, max_n, is_exhausted) -- raise_free is what the run theorems of this file establish for the four classes; after an exception the two may differ in n (the hand-written machine reports the error before it commits the updates of that iteration).  The operation list itself (the sequence generators) is tied by the correspondence'
+MIXED_SRC = 'THE MODEL OF MixedCheckpointSchedule IS THE SOURCE: GenMixed.mixed_prog_model is the program (generator language GenLang5: the stack snapshots of (step type, n0, n1) triples, the set snapshot_n, the planner read as a function, step-type / integer / boolean locals, break) that harness/translate.py produces from MixedCheckpointSchedule._iterator; Gen/MixedGen.v re-translates the current source on every run and proves it equal to that term by conversion.  For every planner the constructor can select (the table of mixed_steps_tabulation or mixed_step_memoization behind its cache) and under EVERY history of next() and finalize(k) calls, resuming that program request by request from the freshly constructed object gives exactly the observations (outcome, n, r, max_n, is_exhausted) of the schedule object of Model/Sched.v (hand-written machine Mixed.resume) -- up to the first exception the latter raises (raise_free: none on the documented domain, by the Mixed run theorems of this file); the invariant carried through is that the set snapshot_n holds exactly the distinct first components of the stack (GenMixed.sinv), which is why the model needs no set'
 files = {}
 for pid, cls in [('C01','C01'),('C02','C02'),('C03','C03'),('C04','C04'),('C08','C08'),('C12','C12')]:
     body = HEAD % (pid, TITLES[pid]) + safety(pid, cls, '')
-    body = body.replace("From CS Require Import Actions", "From CS Require Ops RevConv RevBridge4 RevolveRun Refuted DiskRun DiskBridge3 HRevRun HRevTop GenLang GenBasic GenLang2 GenTwo GenLang3 GenMulti GenLang4 GenConv.\nFrom CS Require Import Actions")
+    body = body.replace("From CS Require Import Actions", "From CS Require Ops RevConv RevBridge4 RevolveRun Refuted DiskRun DiskBridge3 HRevRun HRevTop GenLang GenBasic GenLang2 GenTwo GenLang3 GenMulti GenLang4 GenConv GenLang5 GenMixed.\nFrom CS Require Import Actions")
     if pid != 'C04':
         body += disk_safety(pid, cls)
         body += hrev_safety(pid, cls)
@@ -187,6 +188,7 @@ Print Assumptions C04_hrevolve_only_leftover_partial.
     body += lifted('%s_twolevel_source_is_model' % pid, 'GenTwo', 'two_from_start', TWO_SRC)
     body += lifted('%s_multistage_source_is_model' % pid, 'GenMulti', 'multi_from_start', MULTI_SRC)
     body += lifted('%s_revolve_family_converter_is_source' % pid, 'GenConv', 'conv_from_start', CONV_SRC)
+    body += lifted('%s_mixed_source_is_model' % pid, 'GenMixed', 'mixed_from_start', MIXED_SRC)
     files[pid] = body
 
 
@@ -235,7 +237,8 @@ Proof. exact C3_C. Qed.
 Print Assumptions C06_cost_is_planner_cost.
 
 """
-mk('C06', ['MixInv','MixDP'], [C06_total,
+mk('C06', ['MixInv','MixDP','GenLang5','GenMixed'], [C06_total,
+   lifted('C06_mixed_source_is_model','GenMixed','mixed_from_start',MIXED_SRC),
    lifted('C06_mixed_terminates','MixBridge','mixed_terminates','... and that point is reached: within N (N + 3) + N + 2 requests the schedule is exhausted with exactly C N S forward steps executed'),
    lifted('C06_plan_1','MixDP','plan_1',''), lifted('C06_plan_ge2','MixDP','plan_ge2','facts of the concrete planner model: the step kind and length it prescribes'),
    lifted('C06_plan_2','MixDP','plan_2',''), lifted('C06_C_ics','MixDP','C_ics','cost recurrence, restart checkpoint'), lifted('C06_C_adj','MixDP','C_adj','cost recurrence, adjoint-dependency checkpoint'),
@@ -278,11 +281,12 @@ Proof. exact twolevel_run. Qed.
 Print Assumptions C09_twolevel_passes.
 
 """
-mk('C09', ['MSTerm','OnlineFlags','Flags','RevConv','RevBridge4','RevolveRun','PassRepeat','Online','DiskRun','DiskBridge3','HRevRun','HRevTop','GenLang','GenBasic','GenLang2','GenTwo','GenLang3','GenMulti','GenLang4','GenConv'], [
+mk('C09', ['MSTerm','OnlineFlags','Flags','RevConv','RevBridge4','RevolveRun','PassRepeat','Online','DiskRun','DiskBridge3','HRevRun','HRevTop','GenLang','GenBasic','GenLang2','GenTwo','GenLang3','GenMulti','GenLang4','GenConv','GenLang5','GenMixed'], [
    lifted('C09_basic_source_is_model','GenBasic','basic_from_start',BASIC_SRC),
    lifted('C09_twolevel_source_is_model','GenTwo','two_from_start',TWO_SRC),
    lifted('C09_multistage_source_is_model','GenMulti','multi_from_start',MULTI_SRC),
    lifted('C09_revolve_family_converter_is_source','GenConv','conv_from_start',CONV_SRC),
+   lifted('C09_mixed_source_is_model','GenMixed','mixed_from_start',MIXED_SRC),
    lifted('C09_flags','Flags','C09_flags','FLAGS, all thirteen classes, every parameter tuple the constructor accepts, every history of next() / finalize(k) requests (ops), any executor parameters: before the first request is_exhausted = is_running = False; after every next() is_running = True; is_exhausted after a request = (the final action of the class has been yielded so far) -- final_action: EndForward for None, EndReverse for the offline classes and SingleDisk(move), none for SingleMemory, SingleDisk(copy), TwoLevel; no action is yielded once the final action has been seen (only StopIteration / an exception), and finalize never changes the flag. flags_hist is the trace rule, defined in Proofs/OnlineFlags.v'),
    C09_runs,
    lifted('C09_multistage_flags_on_runs','MultistageRun','multistage_flags','the same rule read on the raise-free Multistage runs of the run theorem (every line: is_running, and is_exhausted = (the action is EndReverse), StopIteration only with is_exhausted)'),
@@ -330,7 +334,8 @@ mk('C14', ['TopK','AllocProofs','SplitProofs','AllocMin','AllocGlue','GenLang3',
 mk('C15', ['MemoCoh','SchedProofs'], [lifted('C15_memo_warm_planC','MemoCoh','memo_warm_planC','the memoised planner as the extracted iterator uses it (cache warmed by an arbitrary earlier call) returns the canonical plan for every sub-problem'),
    lifted('C15_memoS_total','MemoCoh','memoS_total','with enough fuel a call succeeds from any coherent cache'),lifted('C15_cache_coherent','MemoCoh','C15_cache_coherent','every cache reachable by any sequence of calls holds only correct entries'),
    lifted('C15_history_independent','MemoCoh','C15_history_independent','a successful call returns the pure value whatever the call history')])
-mk('C16', ['TabEq','TabSim','MemoCoh','MixPaths'], [lifted('C16_streams_equal','MixPaths','mixed_paths_same_stream','STREAMS: on the extracted model the whole monitored run of MixedCheckpointSchedule -- every outcome, every observation (n, r, max_n, flags, uses_storage_type) and the executor state -- is the same on the tabulated path (tab = true) and on the memoised path (tab = false), for every N, unit count, storage and number of requests'),
+mk('C16', ['TabEq','TabSim','MemoCoh','MixPaths','GenLang5','GenMixed'], [lifted('C16_mixed_source_is_model','GenMixed','mixed_from_start',MIXED_SRC),
+   lifted('C16_streams_equal','MixPaths','mixed_paths_same_stream','STREAMS: on the extracted model the whole monitored run of MixedCheckpointSchedule -- every outcome, every observation (n, r, max_n, flags, uses_storage_type) and the executor state -- is the same on the tabulated path (tab = true) and on the memoised path (tab = false), for every N, unit count, storage and number of requests'),
    lifted('C16_tabulate_planC','TabSim','tabulate_planC','the extracted tabulated planner (list of lists, as the numpy array) succeeds and every entry is the canonical plan'),
    lifted('C16_memo_warm_planC','MemoCoh','memo_warm_planC','... and so is every answer of the extracted memoised planner: the two paths prescribe the same kind, length and cost'),lifted('C16_table','TabEq','C16_table','the tabulated planner never fails an assertion and every entry equals the memoised planner')])
 C17_complete = '''(* valid parameters yield a complete stream: the run theorems, which have no hypothesis beyond the documented domain
